@@ -104,6 +104,9 @@ type LS4 struct {
 
 type Tags []string
 
+// XInt is a local type that goes by the name of an imported one.
+type XInt int64
+
 type Str interface{ String() string }
 `
 
@@ -122,7 +125,7 @@ var Types = []TypeDef{
 	{"PInt", "*int"}, {"PMyInt", "*MyInt"}, {"PLS1", "*LS1"}, {"PLS2", "*LS2"}, {"PXS", "*ext.XS"}, {"PPInt", "**int"},
 	{"SInt", "[]int"}, {"SMyInt", "[]MyInt"}, {"SString", "[]string"}, {"SAny", "[]interface{}"},
 	{"SLS1", "[]LS1"}, {"SLS2", "[]LS2"}, {"SPLS1", "[]*LS1"}, {"Tags", "Tags"},
-	{"SXInt", "[]ext.XInt"}, {"SPXS", "[]*ext.XS"},
+	{"SXInt", "[]ext.XInt"}, {"SPXS", "[]*ext.XS"}, {"SPLS2", "[]*LS2"}, {"SSMyInt", "[][]MyInt"},
 	{"Any", "interface{}"}, {"Err", "error"}, {"Str", "Str"}, {"Map", "map[string]int"}, {"Func", "func() int"}, {"Arr", "[2]int"},
 }
 
